@@ -44,7 +44,8 @@ PROBES = ['incremental_update', 'restart_appeared_between_calls',
           'nothing_to_process', 'writer_running_during_call',
           'checkpoints_per_proc', 'enum_permuted', 'overall_checked',
           'group_vars_change', 'per_level_components',
-          'process_numbers_with_gaps', 'io_fault_fired',
+          'process_numbers_with_gaps', 'writer_events_inside_call',
+          'io_fault_fired',
           'io_fault_raise_accepted', 'io_fault_swallowed',
           'call_after_io_fault_checked']
 COMPONENTS = {
@@ -105,6 +106,7 @@ def generate(rng, tier):
                            allow_stride_change=rng.chance(0.3))
     g = rng.child('ops')
     gf = rng.child('iofaults')
+    gp = rng.child('preempt')
     io_faults = gf.chance(0.3)
     cfg['io_faults'] = io_faults
     enum = {'mode': g.pick(['sorted', 'reverse', 'shuffle']),
@@ -130,6 +132,15 @@ def generate(rng, tier):
         else:
             ops.append({'op': 'get_content', 'restart': g.randrange(nres),
                         'overwrite': g.chance(0.3)})
+        if (ops[-1]['op'] == 'iterations' and budget > 0
+                and gp.chance(0.35)):
+            # the writer keeps running INSIDE this call: at the k-th point
+            # where the reader enumerates a directory or opens a file, n
+            # writer events happen
+            ops[-1]['preempt'] = [{'at': gp.weighted(
+                [(1, 3), (2, 3), (3, 2), (4, 2), (6, 1), (9, 1)]),
+                'n': gp.randint(1, max(1, nev // 2))}
+                for _ in range(gp.weighted([(1, 3), (2, 1)]))]
         if io_faults and ops[-1]['op'] != 'read_iterations' \
                 and gf.chance(0.35):
             ops[-1]['fault'] = {'kind': 'open_r', 'err': 'EIO',
@@ -161,6 +172,10 @@ def simplify(run):
     for i, o in enumerate(run['ops']):
         if o.get('fault'):
             c = copy.deepcopy(run); del c['ops'][i]['fault']; yield c
+        if o.get('preempt'):
+            c = copy.deepcopy(run); del c['ops'][i]['preempt']; yield c
+            if len(o['preempt']) > 1:
+                c = copy.deepcopy(run); c['ops'][i]['preempt'].pop(); yield c
     for k in ('parse', 'parameters', 'fresh'):
         if run['final'][k]:
             c = copy.deepcopy(run); c['final'][k] = False; yield c
@@ -339,16 +354,34 @@ def _execute(run, plan):
                 before_seen = set(cat.seen)
                 vis = cat.peek(started, skip)
                 plan.arm(op.get('fault'))
+                pre = sorted(op.get('preempt') or [], key=lambda x: x['at']) \
+                    if skip else []
+                io_points = [0]
+                ran_inside = [0]
+
+                def hook(tag, pre=pre, io_points=io_points,
+                         ran_inside=ran_inside):
+                    io_points[0] += 1
+                    for pe in pre:
+                        if pe['at'] == io_points[0]:
+                            ev = sim.step(pe['n'])
+                            ran_inside[0] += len(ev)
+                            tr.event('writer_inside_call', n=len(ev),
+                                     at=io_points[0])
+                seams_fs.PREEMPT[0] = hook if pre else None
                 try:
-                    res = aurel.iterations(param, skip_last=skip,
-                                           verbose=False)
+                    try:
+                        res = aurel.iterations(param, skip_last=skip,
+                                               verbose=False)
+                    finally:
+                        seams_fs.PREEMPT[0] = None
                     fired = plan.disarm()
                 except seams_h5.InjectedIOError:
                     plan.disarm()
                     fault('io_fault_fired')
                     probe('io_fault_raise_accepted')
                     after_fault = True
-                    cat.call(started, skip, failed=True)
+                    cat.call(list(sim.restarts_started), skip, failed=True)
                     tr.event('iterations', outcome='injected')
                     continue
                 except ImportError as e:
@@ -369,7 +402,7 @@ def _execute(run, plan):
                         fault('io_fault_fired')
                         probe('io_fault_raise_accepted')
                         after_fault = True
-                        cat.call(started, skip, failed=True)
+                        cat.call(list(sim.restarts_started), skip, failed=True)
                         continue
                     viol.append({
                         'sig': f'iterations:raised:{type(e).__name__}:'
@@ -387,6 +420,9 @@ def _execute(run, plan):
                     probe('io_fault_swallowed')
                     after_fault = True
                     got_rs = sorted(k for k in res if k != 'overall')
+                    if ran_inside[0]:
+                        vis = cat.peek(list(sim.restarts_started), skip)
+                        started = list(sim.restarts_started)
                     if not set(got_rs) <= set(vis):
                         viol.append({'sig': 'catalogue:restart_set', 'op': opi,
                                      'msg': f'op#{opi} iterations() after an '
@@ -397,12 +433,38 @@ def _execute(run, plan):
                             compare_entry(res[r], expected_restart_entry(
                                 sim, cfg, r), f'op#{opi} iterations() (I/O '
                                 f'error in this call) restart {r}', viol, opi)
-                    cat.call(started, skip, failed=True)
+                    cat.call(list(sim.restarts_started), skip, failed=True)
                     cat.seen |= set(got_rs) & set(vis)
                     cat.maybe -= cat.seen
                     started_at_last_call = len(started)
                     continue
-                vis = cat.call(started, skip)
+                if ran_inside[0]:
+                    # the writer ran inside the call: the restarts covered
+                    # lie between what was complete when the call began and
+                    # what is complete now; each covered restart was complete
+                    # when it was scanned (a later one existed), so its entry
+                    # must be the final truth
+                    fault('writer_events_inside_call', ran_inside[0])
+                    lower = set(vis)
+                    upper = set(cat.peek(list(sim.restarts_started), skip))
+                    got_rs = {k for k in res if k != 'overall'}
+                    if not (lower <= got_rs <= upper):
+                        viol.append({
+                            'sig': 'catalogue:restart_set:writer_inside_call',
+                            'op': opi,
+                            'msg': f'op#{opi} iterations(skip_last=True) with '
+                                   f'the writer running inside the call '
+                                   f'covers {sorted(got_rs)}; complete before '
+                                   f'the call: {sorted(lower)}, complete '
+                                   f'after it: {sorted(upper)}'})
+                        continue
+                    if got_rs - lower:
+                        probe('restart_completed_during_call_was_covered')
+                    cat.seen |= got_rs
+                    vis = sorted(cat.seen)
+                    started = list(sim.restarts_started)
+                else:
+                    vis = cat.call(started, skip)
                 if after_fault:
                     probe('call_after_io_fault_checked')
                 if before_seen and set(vis) - before_seen:
